@@ -246,6 +246,12 @@ VecInit == \/ \E q \in AttBase : st = [m |-> "vec", op |-> "seed", fam |-> "att"
            \/ \E bb \in Bases : st = [m |-> "vec", op |-> "seed", fam |-> "psat", b |-> bb[1], nb |-> bb[2]]
            \/ \E dt \in AlphaDts : st = [m |-> "vec", op |-> "seed", fam |-> "alpha", dt |-> dt]
            \/ \E s1 \in StickSet : st = [m |-> "vec", op |-> "seed", fam |-> "stick", s1 |-> s1]
+           \/ \E lim \in RateLims : st = [m |-> "vec", op |-> "seed", fam |-> "ratex", lim |-> lim]
+(* the property quantifies over ALL previous integrator states and limits, also a previous state that
+   lies outside the current limit (limit lowered / re-tuned between two steps, state set externally):
+   the OUTPUT must still be inside +-i_max.  Same record shape as a RateStep of the recursion (op RateAny).        *)
+RateOutside(lim) == { <<2*lim[1] + 1, -3*lim[2] - 2, lim[3] + 5>>, <<-lim[1] - 4, lim[2], 7*lim[3] + 1>>,
+                      <<lim[1], 2*lim[2] + 3, -2*lim[3] - 1>>, <<-5*lim[1] - 1, -lim[2] - 1, -lim[3] - 9>> }
 PScales(nb) == { 0, 1, PD \div nb - 1, PD \div nb, PD \div nb + 1, 2 * (PD \div nb), 5 * (PD \div nb) }
 Expand == /\ st.op = "seed"
           /\ \/ /\ st.fam = "att"
@@ -256,6 +262,11 @@ Expand == /\ st.op = "seed"
                 /\ \E v \in Orbit(st.b), t \in PScales(st.nb) :
                       LET P == VScale(t, v) IN
                       st' = [m |-> "vec", op |-> "psat", P |-> P, psat |-> Sat(P), cell |-> PCell(P)]
+             \/ /\ st.fam = "ratex"
+                /\ \E i0 \in RateOutside(st.lim), e \in RateEs, dt \in RateDts :
+                      st' = [m |-> "vec", op |-> "RateAny", lim |-> st.lim,
+                             i |-> ClampV(VAdd(i0, VScale(dt, e)), st.lim),
+                             pre |-> [i |-> i0], in |-> [e |-> e, dt |-> dt]]
              \/ /\ st.fam = "alpha"
                 /\ \E f \in AlphaFs : st' = AlphaVec(st.dt, f)
              \/ /\ st.fam = "stick"
@@ -278,6 +289,7 @@ SpecRec == InitRec /\ [][NextRec]_st
 (* the bounds of the property, as a predicate of one state *)
 Bound(s) ==
     /\ s.m = "rate" => InBox(s.i, s.lim)
+    /\ (s.m = "vec" /\ s.op = "RateAny") => InBox(s.i, s.lim)          \* output inside, whatever the previous state
     /\ s.m = "pos"  => /\ -s.zmax <= s.z /\ s.z <= s.zmax
                        /\ s.op = "PosStep" => NormSq(s.psat.num) <= s.psat.den * s.psat.den
     /\ s.m \in {"vel", "yaw"} =>
@@ -288,7 +300,7 @@ BoundInv  == Bound(st)
 BoundStep == [][Bound(st) => Bound(st')]_st             \* inductive step, as an action property
 
 (* independent characterisations of the expected values *)
-RateLaw == st.op = "RateStep" =>
+RateLaw == st.op \in {"RateStep", "RateAny"} =>
               \A k \in 1..3 : Nearest1(st.pre.i[k] + st.in.e[k] * st.in.dt, st.lim[k], st.i[k])
 PosLaw  == st.op = "PosStep" =>
               /\ Nearest1(st.pre.z - st.in.ez * st.in.dt, st.zmax, st.z)
